@@ -354,7 +354,10 @@ theorem blind_query (env : Env) : Blind (query env) := by
   intro s
   have ha : (stripSt s).core.active = s.core.active := rfl
   simp only [ha]
-  exact (Blind.seq (blind_deliver env .query 255 {} {}) (blind_deliver env .query s.core.active {} {})) s
+  generalize headFirst Method.query = hfq
+  cases hfq <;> simp only [if_true, if_false, Bool.false_eq_true]
+  · exact (Blind.seq (blind_deliver env .query s.core.active {} {}) (blind_deliver env .query 255 {} {})) s
+  · exact (Blind.seq (blind_deliver env .query 255 {} {}) (blind_deliver env .query s.core.active {} {})) s
 
 theorem blind_replayTransition (env : Env) (d : Nat) : Blind (replayTransition env d) := by
   unfold replayTransition
